@@ -132,4 +132,72 @@ def handleResolve (j : Json) : Except String Json := do
     | .unknownSite fn site => Json.mkObj [("verdict", "unknown-site"), ("fn", Json.str fn), ("site", Json.str site)]
     | .escaped e' => Json.mkObj [("verdict", "escaped"), ("cls", Json.str (exnStr e'))])
 
+/-! ### resolution by call text (when line:col ids of the current source and of the model differ) -/
+
+/-- "157:26-157:93 TriggerContext" ↦ "TriggerContext" -/
+def textOf (site : String) : String :=
+  match site.splitOn " " with
+  | _ :: rest => " ".intercalate rest
+  | [] => site
+
+def mapSites (f : String → String) : Stmt → Stmt
+  | .call s => .call (f s)
+  | .seq a b => .seq (mapSites f a) (mapSites f b)
+  | .branch c a b => .branch c (mapSites f a) (mapSites f b)
+  | .loop id b => .loop id (mapSites f b)
+  | .tryExcept b c h hd => .tryExcept (mapSites f b) c h (mapSites f hd)
+  | .tryFinally b fin => .tryFinally (mapSites f b) (mapSites f fin)
+  | .scope n b => .scope n (mapSites f b)
+  | s => s
+
+def templateOf (fn hid : String) : String :=
+  ((Extracted.Guards.handlerTemplates.find? (fun r => r.1 == fn && r.2.1 == hid)).map (·.2.2)).getD ""
+
+/-- a representative call of each top-level phase of trace_call, in the inlined skeleton -/
+def regionSite : String → String
+  | "action" => "ctx.can_trigger"
+  | "match" => "trigger.at_location"
+  | "results" => "result.process"
+  | "callbacks" => "callback.process"
+  | _ => "self.location_from_event"
+
+/-- which handler of the inlined trace_call catches a failure of class `e` in this phase; its function is found
+    by the handler id (ids are line based, unique within the file) -/
+def regionVerdict (region : String) (e : Py.Exn) : Json :=
+  let full := mapSites textOf Extracted.Guards.traceCallFull
+  match catchAt (regionSite region) e full with
+  | some (.caught hid) =>
+    let tmpl := ((Extracted.Guards.handlerTemplates.find? (fun r => r.2.1 == hid &&
+      (r.1.endsWith "TriggerHandler.trace_call" || r.1.endsWith "TriggerHandler.__trace_call" ||
+       r.1.endsWith "TriggerHandler.__actions_for_location" || r.1.endsWith "TriggerContext.__exit__" ||
+       r.1.endsWith "TriggerHandler.__process_call_backs" || r.1.endsWith "CallbackContext.process" ||
+       r.1.endsWith "ActionContext.process"))).map (·.2.2)).getD ""
+    Json.mkObj [("verdict", "caught"), ("level", "region"), ("template", Json.str tmpl)]
+  | some (.escapes e') => Json.mkObj [("verdict", "escaped"), ("cls", Json.str (exnStr e'))]
+  | _ => Json.mkObj [("verdict", "maybe")]
+
+/-- {"op":"resolve_text","cls":c,"region":r,"stack":[[fn,text],…]}: resolve through the frames the model knows by
+    the TEXT of the call; at the first frame it cannot place, answer for the phase of trace_call the fault is in -/
+def handleResolveText (j : Json) : Except String Json := do
+  let e ← exnOf (← getStr j "cls")
+  let region ← getStr j "region"
+  let stack ← (← getArr j "stack").toList.mapM (fun fr => do
+    let a ← fr.getArr?
+    match a.toList with
+    | [f, s] => pure ((← f.getStr?), (← s.getStr?))
+    | _ => throw "stack frame must be [fn, text]")
+  let rec go (e : Py.Exn) : List (String × String) → Json
+    | [] => regionVerdict region e
+    | (fn, text) :: outer =>
+      match Extracted.Guards.prog.get fn with
+      | none => go e outer
+      | some s =>
+        match catchAt text e (mapSites textOf s) with
+        | none => regionVerdict region e
+        | some (.caught hid) =>
+          Json.mkObj [("verdict", "caught"), ("level", "frame"), ("fn", Json.str fn), ("template", Json.str (templateOf fn hid))]
+        | some (.maybe _ _) => Json.mkObj [("verdict", "maybe")]
+        | some (.escapes e') => go e' outer
+  pure (go e stack)
+
 end GuardRun
